@@ -123,7 +123,7 @@ TkInit == [
     sawS |-> {},
     stepDone |-> FALSE, planBefore |-> <<>>, fired |-> <<>>, outcome |-> 0,     \* plan step of this cycle
     phases |-> 0,
-    desync |-> FALSE ]      \* a structural rule was violated in this call: the rest of the call is not interpreted
+    desync |-> 0 ]          \* lowest structural level violated in this call (0 = none): the rest of the call is not interpreted
 
 Cont(tk, e) == tk.dpos > 0 /\ tk.dm = e.m /\ tk.ds = e.s /\ tk.dpos < Len(Order(e)) /\ Order(e)[tk.dpos + 1] = e.j
 
@@ -153,7 +153,7 @@ TkCall(tk, e) ==
                            !.inround = FALSE, !.rpend = NoT, !.rcancel = FALSE, !.rfirst = FALSE,
                            !.surv = NoT, !.passed = {}, !.rounds = 0,
                            !.sawF = {}, !.sawS = {}, !.stepDone = FALSE, !.fired = <<>>, !.outcome = 0, !.phases = 0,
-                           !.planBefore = <<>>, !.desync = FALSE]
+                           !.planBefore = <<>>, !.desync = 0]
     IN  CASE e.op = "ctor"   -> [TkInit EXCEPT !.alive = TRUE, !.incall = TRUE, !.op = "ctor", !.logger = HasLog /\ e.p # 0]
           [] e.op \in {"to", "ito"}     -> [base EXCEPT !.lastreq = <<NONE, e.a, 0>>]
           [] e.op \in {"with", "iwith"} -> [base EXCEPT !.lastreq = <<NONE, e.a, e.p>>]
@@ -236,10 +236,11 @@ TkStep(tk, e) ==
 (* What each property says about one event.  V(c, p, why) contributes a     *)
 (* finding <<p, why>> when condition c is violated.                         *)
 
-\* level 0: valid whatever else happened; level 1: structural (once violated, the rest of the call cannot be interpreted:
-\* the tracker is marked out of step until the next call and level-2 findings are suppressed); level 2: relies on the call's structure
+\* level 0: valid whatever else happened; levels 1 (sub-delivery order) and 2 (cycle order) are structural: once one is
+\* violated the rest of the call cannot be interpreted, the tracker is marked out of step until the next call and findings
+\* of a higher level are suppressed; level 3 relies on the call's structure
 VL(ok, p, why, lvl) == IF ok THEN {} ELSE {<<p, why, lvl>>}
-V(ok, p, why) == VL(ok, p, why, IF p \in {"C05", "C15"} THEN 1 ELSE 2)
+V(ok, p, why) == VL(ok, p, why, IF p = "C15" THEN 1 ELSE IF p = "C05" THEN 2 ELSE 3)
 V0(ok, p, why) == VL(ok, p, why, 0)
 
 Unchanged(tk, e) == e.act = tk.obs.act /\ e.ia = tk.obs.ia /\ e.prev = tk.obs.prev /\ e.plan = tk.obs.plan /\ e.on = tk.obs.on
@@ -348,6 +349,8 @@ CheckCb(tk, e, tk2) ==
            "C03", "entry guard during activation consulted on a state that is not the one about to be entered")
     \cup V(IsGuard(e.m) => tk.stage # "life", "C03", "guard evaluation after enter/exit/reenter already ran in this call")
     \cup V(IsGuard(e.m) => proc \/ actv, "C03", "guards consulted by an operation that must apply transitions unguarded (replay / load / deactivation)")
+    \cup V(IsGuard(e.m) => tk.op # "load", "C12", "load() consulted a guard")
+    \cup V(IsGuard(e.m) => tk.op \notin {"rt", "re"}, "C11", "replay consulted a guard")
     \cup V(IsLife(e.m) /\ e.m # M_EXIT /\ e.s # NONE /\ proc /\ start => \E t \in tk2.passed : t[2] = e.s,
            "C03", "a state was entered although no request for it passed its guards")
     \cup V(IsLife(e.m) /\ e.m # M_EXIT /\ e.s # NONE /\ proc /\ start => tk2.surv # NoT /\ tk2.surv[2] = e.s,
@@ -410,7 +413,7 @@ CheckRet(tk, e, tk2) ==
            "C10", "the plan seen after plan edits is not the sequence of tasks appended and not removed")
     \cup V(~step /\ tk.dpos > 0 /\ ~(IsPlanCb(tk.dm)) /\ ~HasPlanAct(tk.lastacts) /\ tk.op \notin {"exit", "dtor", "load"} /\ e.act # NONE => e.plan = pb,
            "C08", "the plan changed outside the plan step although no callback edited it")
-    \cup V(~step /\ tk.dpos = 0 /\ tk.op \notin {"exit", "dtor", "load", "pc", "pw", "pr", "px", "ctor"} /\ e.act # NONE => e.plan = pb,
+    \cup V(~step /\ tk.dpos = 0 /\ tk.op \notin {"exit", "dtor", "load", "pc", "pw", "pr", "px", "ctor", "enter", "re"} /\ e.act # NONE => e.plan = pb,
            "C08", "the plan changed in a call that delivered no callback")
     \cup V(tk.dpos > 0 /\ IsPlanCb(tk.dm) => e.plan = <<>>, "C09", "the plan is not empty after planSucceeded / planFailed returned")
     \* ---- C16
@@ -501,8 +504,9 @@ RawChecks(tk, e, tk2) ==
 Judge(tk, e) ==
     LET tk2 == TkStep(tk, e)
         raw == RawChecks(tk, e, tk2)
-        ds  == e.e \notin {"call", "cfg"} /\ (tk.desync \/ \E f \in raw : f[3] = 1)
+        lv  == {f[3] : f \in {g \in raw : g[3] \in {1, 2}}} \cup (IF tk.desync # 0 THEN {tk.desync} ELSE {})
+        ds  == IF e.e \in {"call", "cfg"} \/ lv = {} THEN 0 ELSE CHOOSE x \in lv : \A y \in lv : x <= y
     IN  [tk |-> [tk2 EXCEPT !.desync = ds],
-         findings |-> {<<f[1], f[2]>> : f \in {g \in raw : ~ds \/ g[3] <= 1}}]
+         findings |-> {<<f[1], f[2]>> : f \in {g \in raw : ds = 0 \/ g[3] <= ds}}]
 
 =============================================================================
